@@ -152,7 +152,9 @@ def explore(item, tier, seed):
 
     if kind == "LP":
         step = 1 if tier == "thorough" else 3
-        for idx, labs, pr, m in F.family("quick"):
+        import itertools as _it
+
+        for idx, labs, pr, m in _it.chain(F.family("quick"), F.view_family()):
             if idx % step == 0 and (idx // step) % n == i:
                 record(check_solution(pr, m, (), rep), {"family": "lp", "label": labs, "problem": pr, "method": m})
                 if rep.states % 301 == 1:
